@@ -8,6 +8,7 @@ OUT=mutants/RESULTS.txt; : > $OUT
 for d in seeded/*/; do
   n=$(basename $d); id=${n%-*}
   [ "$n" = "C05-B" ] && id=C16
+  c=$(python3 -c "import json;print(json.load(open('$d/meta.json')).get('check',''))" 2>/dev/null); [ -n "$c" ] && id=$c
   tools/mutant_wt.sh $d/patch.diff $id quick | grep MUTANT >> $OUT
 done
 # reverts of the repairs: property from the fixed: line
